@@ -41,3 +41,7 @@ package util
 //@ nomod
 //@ prop C16
 //@ ensures[never-in-direct-mode] !ret(IsProxied) ==> !result
+
+// every read of a forwarding / real-client-IP header in the whole repository happens in one of these functions
+//@ prop C16
+//@ scan[forwarding-header-readers] header-readers pkg/requests/util.GetRequestHost pkg/requests/util.GetRequestProto pkg/requests/util.GetRequestURI
